@@ -606,7 +606,10 @@ def gen_units():
               "spec": fn("generate_step_branch", "r", label="JoinOutput::generate_step_branch",
                          attrs="#[verifier::loop_isolation(false)]\n",
                          requires=["step_acts_ok(%s)" % ACTS, "branch_index < result_vars@.len()", "all_tokenizable(result_vars@)"],
-                         ensures=["r is Some <==> %s.len() > 0" % ACTS],
+                         ensures=["r is Some <==> %s.len() > 0" % ACTS,
+                                  # C07 / C08 / C09 / C16: how the branch is started
+                                  "r is Some ==> exists|c: Seq<Tok>| #[trigger] is_toks(c) && (r->0).1@ == spawn_wrap(self.lazy_branches, is_spawn, is_async, "
+                                  "count_active(self.depths@, step_number as int) > 1, branch_index, c)"],
                          closures={
                              "0": {"id": "G", "params": ["Option<StepAcc<'a>>", "(usize, &&'a ExprGroup<ActionExpr>)"], "ret": "(r: Option<StepAcc<'a>>)",
                                    "requires": ["__Gp1.0 < %s.len()" % ACTS, "*__Gp1.1 == %s[__Gp1.0 as int]" % ACTS,
@@ -623,7 +626,9 @@ def gen_units():
                                    "ensures": ["r is Some", "frame_inv(r->0.step_streams@, %s, 1)" % ACTS]},
                              "3": {"id": "U", "params": ["StepAcc<'a>"], "ret": "(r: (Option<TokenStream>, TokenStream))",
                                    "requires": ["stack_wf(__Up0.step_streams@)"]},
-                             "4": {"id": "M", "params": ["(Option<TokenStream>, TokenStream)"], "ret": "(r: (Option<TokenStream>, TokenStream))"},
+                             "4": {"id": "M", "params": ["(Option<TokenStream>, TokenStream)"], "ret": "(r: (Option<TokenStream>, TokenStream))",
+                                   "ensures": ["r.0 == __Mp0.0", "is_toks(__Mp0.1@)",
+                                               "r.1@ == spawn_wrap(self.lazy_branches, is_spawn, is_async, count_active(self.depths@, step_number as int) > 1, branch_index, __Mp0.1@)"]},
                          },
                          loops={"0": {"invariant": ["stack_wf(step_streams@)"], "decreases": "step_streams@.len()"}},
                          iter_loops={"0": {"acc_ty": "Option<StepAcc<'a>>", "invariant": [
@@ -977,13 +982,13 @@ OBLIGATIONS = {
     "C04": [("steps", "JoinOutput::join_steps"), ("steps", "lemma_join_comma"), ("steps", "lemma_count_take_step"), ("gen", "JoinOutput::generate_results_transposer"), ("gen", "JoinOutput::active_step_branch_count"), ("gen", "JoinOutput::extract_results_tuple"), ("gen", "lemma_refs_toks"), ("gen", "lemma_filter_tokenizable"),
             ("gen", "JoinOutput::is_branch_active_in_step"), ("gen", "JoinOutput::generate_indexed_step_results_name"),
             ("gen", "JoinOutput::branch_result_name"), ("gen", "JoinOutput::branch_result_pat")],
-    "C07": [("steps", "JoinOutput::generate_thread_builders_and_spawn_joiners"), ("steps", "JoinOutput::generate_step_tail"), ("steps", "lemma_concat_all"), ("entries", "lemma_entry_table"), ("top", "JoinOutput::to_tokens")],
+    "C07": [("steps", "JoinOutput::generate_thread_builders_and_spawn_joiners"), ("steps", "JoinOutput::generate_step_tail"), ("steps", "lemma_concat_all"), ("entries", "lemma_entry_table"), ("top", "JoinOutput::to_tokens"), ("gen", "JoinOutput::generate_step_branch")],
     "C13": [("top", "JoinOutput::to_tokens"), ("guards", "Handler::is_map"), ("guards", "Handler::is_then"), ("guards", "Handler::is_and_then"), ("guards", "new_guards"), ("gen", "JoinOutput::generate_handle"), ("gen", "JoinOutput::extract_results_tuple"), ("gen", "JoinOutput::generate_results_transposer")],
-    "C09": [("steps", "JoinOutput::generate_step_tail"), ("top", "JoinOutput::to_tokens")],
+    "C09": [("steps", "JoinOutput::generate_step_tail"), ("top", "JoinOutput::to_tokens"), ("gen", "JoinOutput::generate_step_branch")],
     # the steps of every kind sit in a plain block of the scope the macro is called in (no closure / thread / box of
     # the macro's own between the caller's locals and the branch expressions)
     "C19": [("top", "JoinOutput::to_tokens")],
-    "C08": [("sep", "is_block_expr"), ("steps", "JoinOutput::generate_thread_builders_and_spawn_joiners"), ("steps", "JoinOutput::generate_step_tail"), ("steps", "lemma_concat_all"),
+    "C08": [("gen", "JoinOutput::generate_step_branch"), ("sep", "is_block_expr"), ("steps", "JoinOutput::generate_thread_builders_and_spawn_joiners"), ("steps", "JoinOutput::generate_step_tail"), ("steps", "lemma_concat_all"),
             ("core", "construct_thread_builder_name"), ("core", "construct_thread_builder_fn_name")],
     "C18": [("gen", "JoinOutput::split_branch_steps"), ("steps", "JoinOutput::generate_steps"), ("steps", "JoinOutput::generate_thread_builders_and_spawn_joiners"), ("steps", "JoinOutput::generate_step_tail")],
     "C05": [("steps", "JoinOutput::join_steps"), ("steps", "lemma_join_comma"), ("steps", "lemma_count_take_step"), ("gen", "JoinOutput::generate_results_transposer"), ("parse", "parse_until_suffix"), ("parse", "ActionGroup::parse_stream"),
@@ -995,7 +1000,7 @@ OBLIGATIONS = {
             ("gen", "JoinOutput::generate_def_and_step_streams"), ("gen", "JoinOutput::expand_process_expr"),
             ("core", "ProcessExpr::to_tokens")],
     "C14": [("parse", "parse_until_suffix"), ("det", "lemma_first_match_is_longest"), ("optable", "lemma_operator_tables")],
-    "C16": [("steps", "JoinOutput::generate_step_tail"), ("guards", "new_init_lazy_branches"), ("guards", "new_init_transpose")],
+    "C16": [("gen", "JoinOutput::generate_step_branch"), ("steps", "JoinOutput::generate_step_tail"), ("guards", "new_init_lazy_branches"), ("guards", "new_init_transpose")],
     "C17": [("sep", "is_block_expr"), ("sep", "JoinOutput::separate_block_expr_process"), ("sep", "JoinOutput::separate_block_expr_err"), ("sep", "JoinOutput::separate_block_expr_initial"), ("sep", "lemma_sep_step")] + [("names", "lemma_names_never_clash"), ("names", "lemma_names_table"), ("names", "lemma_name3_injective"), ("names", "lemma_name1_injective"), ("names", "lemma_distinguishable"), ("names", "lemma_names_strlits"), ("gen", "JoinOutput::generate_def_and_step_streams")] + [("core", n) for n in ['construct_var_name', 'construct_step_results_name', 'construct_result_name', 'construct_thread_builder_name', 'construct_inspect_fn_name', 'construct_spawn_tokio_fn_name', 'construct_results_name', 'construct_handler_name', 'construct_internal_value_name', 'construct_thread_builder_fn_name', 'construct_expr_wrapper_name']],
     "C20": [("core", n) for n in ['construct_var_name', 'construct_step_results_name', 'construct_result_name', 'construct_thread_builder_name', 'construct_inspect_fn_name', 'construct_spawn_tokio_fn_name', 'construct_results_name', 'construct_handler_name', 'construct_internal_value_name', 'construct_thread_builder_fn_name', 'construct_expr_wrapper_name']],
     "C10": [("sep", "JoinOutput::separate_block_expr_process"), ("sep", "JoinOutput::separate_block_expr_err"), ("sep", "JoinOutput::separate_block_expr_initial"), ("sep", "is_block_expr"), ("sep", "err_is_replaceable"), ("sep", "initial_is_replaceable"), ("sep", "lemma_sep_step"), ("sep", "lemma_defs_empty"), ("sep", "lemma_any_block_upto_step")] + [("core", "ProcessExpr::is_replaceable"), ("core", "ProcessExpr::replace_inner_exprs"), ("core", "ErrExpr::replace_inner_exprs"),
